@@ -305,6 +305,8 @@ def _run_property(pid, sp, tier, seed, my_findings, tmpdir, t0):
             for k, v in res["enum"].items():
                 if isinstance(v, bool):
                     enum_tot[k] = enum_tot.get(k, True) and v
+                elif k.startswith("max_"):
+                    enum_tot[k] = max(enum_tot.get(k, 0), v)
                 else:
                     enum_tot[k] = enum_tot.get(k, 0) + v
         for smp in res.get("samples", []):
@@ -392,7 +394,7 @@ def _run_property(pid, sp, tier, seed, my_findings, tmpdir, t0):
     for e in errors:
         log("ERROR: " + e)
 
-    all_nt = sum(len(s) for s in nt.values())
+    all_nt = sum(len(s) for s in nt.values()) + int(enum_tot.get("nontrivial", 0))   # enumerated cases are distinct by construction
     wall = time.time() - t0
     cov = dict(
         evaluations=max(0, tot["evaluations"] - tot["shrink_evals"]),
